@@ -15,7 +15,7 @@ EXPLANATION = (
     'REDUCED CLAIM (real concurrency of driver loops, workers and preemption is not encodable; the database serialises them '
     'into atomic procedure calls, and the claim is made at that level, fairness assumed): bounded safety and deadlock-freedom '
     'of the DB-level protocol. After every operation: (i) a job that is Creating/Running points at exactly one existing attempt '
-    'and a Pending/Ready job points at none; (ii) no stuck state — a batch in state running has a committed job that is Ready, '
+    'and a Pending/Ready job points at none, and a job returns from Creating/Running to Ready only when the operation ended its current attempt (else two attempts run at once); (ii) no stuck state — a batch in state running has a committed job that is Ready, '
     'Creating or Running; every committed Ready job sits in a group whose state is running and the loop that must handle it is '
     'gated open: runnable => the scheduler\'s gate (sum of n_ready_jobs > 0) and its candidate query select it; cancelled => the '
     'canceller\'s gate (sum of n_cancelled_ready_jobs > 0) and candidate query select it; cancelled Creating/Running jobs open '
@@ -81,6 +81,9 @@ def asserts(sc):
     running = b_and(b.present, i_eq(b.vals['state'].v, S.code('running')))
     active = b_or(*[b_and(f.present, f.committed, b_or(f.in_state('Ready'), f.in_state('Creating'), f.in_state('Running'))) for f in js])
     out.append(('no stuck state: batch running => some committed job is Ready/Creating/Running', A.imp(running, active)))
+    if prev is not None:
+        # never double-runs: a job leaves Creating/Running for Ready only when the operation ended its current attempt
+        out += A.fallback_only_when_withdrawn(prev, db)
     # progress
     if prev is not None and sc.last_kind in ('schedule', 'complete', 'unschedule', 'cancel_ready'):
         pj = oracle.jobs(prev)
@@ -122,6 +125,7 @@ def run(R):
     run_bmc_property(R, 'C39', sizes, n1=sizes.J - 1, g1=sizes.G - 1, alphabet=ALPH, depth=2, asserts=asserts,
                      classify=lambda bad, vals, sc, known: 'lifecycle-protocol-stuck-or-double-run', extra_seqs=DEEP,
                      workers=int(os.environ.get('VERIF_WORKERS', '12')))
+    sc_.stale_pass(R, 'C39', asserts, lambda bad, vals, sc, known: 'lifecycle-protocol-stuck-or-double-run')
 
 
 def replay(path):
